@@ -86,6 +86,13 @@ def cases():
         out += [t, 'string(%s)' % t, '%s = %s' % (t, t), '%s < time("12:00:00Z")' % t, '%s - time("12:00:00Z")' % t, '%s.time offset' % t, '%s + duration("PT1H")' % t, 'time(string(%s))' % t,
                 'date and time(date("2020-01-01"), %s)' % t, 'date and time(date("2020-01-01"), %s) = date and time("2020-01-01T12:00:00Z")' % t, 'string(date and time(date("2020-01-01"), %s))' % t,
                 '%s in [time("00:00:00Z")..time("23:59:59Z")]' % t]
+    # offsets written in literals, beyond what is valid, of both signs: parsing, comparing, subtracting and printing must answer
+    for off in ('-14:59', '-15:00', '-23:59', '-24:00', '-24:01', '-48:00', '-99:00', '-99:99', '+15:00', '+24:00', '+99:59', '-00:00', '+00:00:01', '-14:59:59', '-15:00:00'):
+        t = 'time("10:20:30%s")' % off
+        dt = 'date and time("2021-10-10T10:20:30%s")' % off
+        out += [t, dt, 'string(%s)' % t, 'string(%s)' % dt, '%s = %s' % (t, t), '%s = %s' % (dt, dt), '%s < date and time("2021-10-10T10:20:30Z")' % dt, '%s - date and time("2021-10-10T10:20:30Z")' % dt,
+                '%s - time("10:20:30Z")' % t, '%s.time offset' % t, '%s.time offset' % dt, '@"10:20:30%s"' % off, '@"2021-10-10T10:20:30%s"' % off, '%s in [%s..%s]' % (dt, dt, dt),
+                'date and time(date("2021-10-10"), %s)' % t, '%s + duration("PT1H")' % dt, 'day of week(%s)' % dt]
     # ---- E
     for big in ('999999999', '-999999999', '2147483647', '2147483648', '-2147483649', '4294967296', '9223372036854775807', '9223372036854775808', '18446744073709551616', '1e30', '-1e30', '1e6144', '0.5', '-0.5'):
         out += ['date(%s, 1, 1)' % big, 'date(2020, %s, 1)' % big, 'date(2020, 1, %s)' % big, 'time(%s, 0, 0)' % big, 'time(0, %s, 0)' % big, 'time(0, 0, %s)' % big, 'time(0, 0, 0, duration("PT1H") * %s)' % big,
@@ -125,6 +132,12 @@ def nested(depth):
         '[' * d + '1' + ']' * d,
         '{a: ' * d + '1' + '}' * d,
         '-' * 1 + '(-' * d + '1' + ')' * d,
+        '-' * d + '"a"',              # operands that are not numbers: every level answers null (and must not cost more than the level below)
+        '-' * d + 'null',
+        '-' * d + 'no such name',
+        'not(' * d + '1' + ')' * d,
+        '1' + ' + ("a"' * d + ')' * d,
+        '"a"' + ' - (1' * d + ')' * d,
         'not(' * d + 'true' + ')' * d,
         'if true then ' * d + '1' + ' else 0' * d,
         '1' + ' + (1' * d + ')' * d,
